@@ -29,7 +29,7 @@ pub struct Args {
     pub tier: Tier,
     pub seed: u64,
     pub replay: Option<PathBuf>,
-    /// only run groups whose name contains this (debugging aid; evidence is still written)
+    /// only run groups whose name contains this (debugging aid; the evidence file is NOT rewritten by such a run)
     pub only: Option<String>,
     /// multiply case counts (debugging aid)
     pub scale: f64,
